@@ -5,6 +5,8 @@ from pyvc.theory import *
 from pyvc.contract import *
 from .graph_spec import A, FA
 from .model_spec import *
+from .lang_spec import spec_heap, agree
+from pyvc.state import heap_closed
 
 MM = 'maltoolbox.model'
 
@@ -20,8 +22,20 @@ def install(reg: Registry):
                      note='PJS: `_properties.keys()` of a generated association object are its two field names, in schema order'))
 
     # ---- Model.get_associated_assets_by_field_name (C01, C05)
+    def HS(c):
+        return spec_heap(c.old.schema)
+
     def requires(c):
-        return [('backrefs', backrefs_ok(c.old, c.self, c.asset))]
+        # the model is read through a snapshot HS that the current heap agrees with (the function writes nothing old)
+        hs = HS(c)
+        return [('HS.agree', agree(hs, c.old)), ('HS.closed', z3.And(*heap_closed(hs))),
+                ('HS.objects', z3.And(c.self >= 0, c.self < hs.alloc, c.asset >= 0, c.asset < hs.alloc)),
+                ('backrefs', backrefs_ok(hs, c.self, c.asset))]
+
+    def frame(o, h):
+        l = A('l!gf')
+        return z3.And(*[FA([l], z3.Implies(z3.And(l >= 0, l < o.alloc), z3.Select(h.arr[n], l) == z3.Select(o.arr[n], l)), [z3.Select(h.arr[n], l)])
+                        for n in h.arr if not z3.eq(h.arr[n], o.arr[n])], z3.BoolVal(True))
 
     def member(o, done, f, x, y):
         s = A('s!gm')
@@ -35,11 +49,9 @@ def install(reg: Registry):
         l = A('l!gi')
         return [
             ('fresh', z3.And(acc >= o.alloc, acc < h.alloc, h.cls(acc) == CLS_LIST)),
-            ('old-lists', z3.And(FA([l], z3.Implies(l < o.alloc, h.bagof(l) == o.bagof(l)), [h.bagof(l)]),
-                                 FA([l], z3.Implies(l < o.alloc, h.len(l) == o.len(l)), [h.len(l)]),
-                                 FA([l], z3.Implies(l < o.alloc, z3.Select(h.arr['L_at'], l) == z3.Select(o.arr['L_at'], l)), [z3.Select(h.arr['L_at'], l)]))),
+            ('old-lists', frame(o, h)),
             ('elems', FA([v], z3.Implies(h.bag(acc, v) > 0, is_VRef(v)), [h.bag(acc, v)])),
-            ('members', FA([y], (h.cnt(acc, y) > 0) == member(o, c.done, c.field_name, c.asset, y), [h.cnt(acc, y)])),
+            ('members', FA([y], (h.cnt(acc, y) > 0) == member(HS(c), c.done, c.field_name, c.asset, y), [h.cnt(acc, y)])),
         ]
 
     def ensures(c):
@@ -48,9 +60,10 @@ def install(reg: Registry):
         l = A('l!ge')
         return [
             ('fresh', c.res >= o.alloc),
-            ('neighbours', FA([y], (h.cnt(c.res, y) > 0) == nav(o, c.self, c.field_name, c.asset, y), [h.cnt(c.res, y)])),
-            ('old-lists', z3.And(FA([l], z3.Implies(l < o.alloc, h.bagof(l) == o.bagof(l)), [h.bagof(l)]),
-                                 FA([l], z3.Implies(l < o.alloc, h.len(l) == o.len(l)), [h.len(l)]))),
+            ('fresh2', z3.And(c.res < h.alloc, h.cls(c.res) == CLS_LIST)),
+            ('elems', FA([z3.Const('v!ge', Val)], z3.Implies(h.bag(c.res, z3.Const('v!ge', Val)) > 0, is_VRef(z3.Const('v!ge', Val))), [h.bag(c.res, z3.Const('v!ge', Val))])),
+            ('neighbours', FA([y], (h.cnt(c.res, y) > 0) == nav(HS(c), c.self, c.field_name, c.asset, y), [h.cnt(c.res, y)])),
+            ('old-lists', frame(o, h)),
         ]
 
     reg.add(Contract(MM + ':Model.get_associated_assets_by_field_name', {'self': Obj(MODEL), 'asset': Obj(ASSET), 'field_name': T.str},
